@@ -53,6 +53,28 @@ def register(reg, P):
                     cfg["outputs_as_nchw"] = list(outs)
                 tier = "quick" if (len(ins) <= 1 and len(outs) <= 1) or name in ("two_in_two_out", "add2") else "thorough"
                 reg("A8", f"{name}/in{''.join(map(str, ins)) or '-'}/out{''.join(map(str, outs)) or '-'}", functools.partial(P, fn, specs, config=cfg), tier=tier)
+    # symbolic spatial dims: lowering that needs the RUNTIME extent of H/W/C after the NCHW bridge
+    def bc_mean(x):
+        return jnp.broadcast_to(jnp.mean(x, axis=(1, 2), keepdims=True), x.shape) + x
+
+    def bc_two(x, y):
+        return (jnp.broadcast_to(jnp.mean(x, axis=(1, 2), keepdims=True), x.shape) * y, jnp.broadcast_to(jnp.sum(y, axis=(0, 1, 3), keepdims=True), y.shape) - x)
+
+    def flat_hw(x):
+        return x.reshape(x.shape[0], x.shape[1] * x.shape[2], x.shape[3]).sum(axis=1)
+
+    bind = {"B": 2, "H": 3, "W": 4}
+    for nm, fn, nin in (("bc_mean", bc_mean, 1), ("bc_two", bc_two, 2), ("flat_hw", flat_hw, 1)):
+        for ins in ([0], [1], [0, 1]):
+            if max(ins) >= nin:
+                continue
+            for outs in ([], [0]):
+                if nm == "flat_hw" and outs:
+                    continue
+                cfg = {"inputs_as_nchw": ins}
+                if outs:
+                    cfg["outputs_as_nchw"] = outs
+                reg("A8", f"sym_hw/{nm}/in{''.join(map(str, ins))}/out{''.join(map(str, outs)) or '-'}", functools.partial(P, fn, [(("B", "H", "W", 5), F32)] * nin, config=cfg, bindings=bind))
     # symbolic batch
     reg("A8", "sym_batch/relu/in0/out0", functools.partial(P, lambda x: jax.nn.relu(x) + 1.0, [(("B", 3, 4, 5), F32)], config={"inputs_as_nchw": [0], "outputs_as_nchw": [0]}))
     reg("A8", "sym_batch/mean/in0", functools.partial(P, lambda x: jnp.mean(x, axis=(1, 2)), [(("B", 3, 4, 5), F32)], config={"inputs_as_nchw": [0]}))
